@@ -1,9 +1,11 @@
 use crate::runner::Ctx;
 
+pub mod c10;
+
 pub fn dispatch(ctx: &Ctx, replay: Option<&str>) -> i32 {
     match ctx.prop.as_str() {
+        "C10" => c10::run(ctx, replay),
         _ => {
-            let _ = replay;
             eprintln!("no check for property {}", ctx.prop);
             2
         }
